@@ -180,3 +180,7 @@ func MapOrder(fork bool)  {}
 
 // Symbolic reports whether the harness runs under the symbolic engine.
 func Symbolic() bool { return false }
+
+// Thorough reports the tier under the engine; natively the bounds it selects
+// only matter through the replayed Choice values.
+func Thorough() bool { return false }
